@@ -1,4 +1,6 @@
 import BddProofs.PathsIter
+import BddProofs.TotalQuery
+import BddProofs.PathsSum
 import BddProofs.Init
 /-! # C14 — `one_sat` and `paths` describe exactly the satisfying set
 
@@ -34,6 +36,19 @@ theorem C14_paths_sorted {fuel s r φ out} (hg : Good s) (v : Valid s.nodes r φ
     ∀ q, q ∈ out → List.Pairwise (fun a b : Int => a.natAbs < b.natAbs) q :=
   paths_sorted hg v h
 
+/-- the sum of `2^(n - length)` over the yielded paths equals the number of satisfying assignments
+(= `sat_count(f, n)`, C13), for `f` over the variables `1..n`; no exponent is truncated -/
+theorem C14_paths_sum {n fuel s r φ out} (hg : Good s) (v : Valid s.nodes r φ) (hs : SuppLt φ (n + 1))
+    (h : paths fuel s r = some out) : (out.map (fun p => 2 ^ (n - p.length))).sum = count φ n :=
+  paths_sum hg v hs h
+
+/-- with enough fuel the iterator runs to exhaustion (the Rust loop terminates) and yields exactly that -/
+theorem C14_paths_total {fuel : Nat} {s : St} {V : Nat} {f : Ref} {φ : Fn} (hg : Good s) (hV : VarsLe s V)
+    (v : Valid s.nodes f φ) (hfuel : 2 ^ (V + 2) ≤ fuel) :
+    ∃ out, paths fuel s f = some out ∧ (∀ e, out.countP (Sat e) = if φ e then 1 else 0) ∧
+      ∀ q, q ∈ out → List.Pairwise (fun a b : Int => a.natAbs < b.natAbs) q :=
+  paths_total_correct hg hV v hfuel
+
 /-- non-vacuity: the constant true in a fresh manager has exactly the empty path -/
 example : paths 3 s4 Ref.one = some [[]] ∧ Good s4 ∧ Valid s4.nodes Ref.one (fun _ => true) :=
   ⟨by decide, s4_good, Valid.one⟩
@@ -44,3 +59,5 @@ end P
 #print axioms P.C14_one_sat_sorted
 #print axioms P.C14_paths_exactly_once
 #print axioms P.C14_paths_sorted
+#print axioms P.C14_paths_sum
+#print axioms P.C14_paths_total
